@@ -91,6 +91,14 @@ def standin(tier, seed):
         yield "Isobaric", lambda a: Isobaric(a, temperature=800.0, pressure=0.0, seed=seed, max_cycles=2), [("c", CellMove()), ("s", CellMove(ShapeDeformation(0.05), scale_atoms=False)), ("d", DisplacementMove(L.copy(), Ball(0.3)))], rich(g), None
         yield "HamiltonianCanonical", lambda a: HamiltonianCanonical(a, temperature=800.0, seed=seed, max_cycles=1), [("h", HamiltonianDisplacementMove(operation=Verlet(dt=1.0, max_steps=3)))], rich(g, fix=False), None
         yield "GrandCanonical", lambda a: GrandCanonical(a, Atoms("Cu"), temperature=3000.0, chemical_potential=-0.2, number_of_exchange_particles=3, seed=seed, max_cycles=2), [("x", ExchangeMove(L.copy())), ("d", DisplacementMove(L.copy(), Ball(0.2)))], rich(g, fix=False, extra=False), None
+        def gc_hamiltonian_context(a):
+            from quansino.mc.contexts import HamiltonianExchangeContext
+
+            class GrandCanonicalWithMomenta(GrandCanonical):
+                default_context = HamiltonianExchangeContext        # a shipped context class, configured the documented way
+            a.set_momenta(np.random.default_rng(seed).normal(size=(len(a), 3)))
+            return GrandCanonicalWithMomenta(a, Atoms("Cu"), temperature=3000.0, chemical_potential=-0.2, number_of_exchange_particles=3, seed=seed, max_cycles=1)
+        yield "GrandCanonical(HamiltonianExchangeContext)", gc_hamiltonian_context, [("x", ExchangeMove(L.copy()))], rich(g, fix=False, extra=False), None
         yield "GrandCanonical(FixAtoms)", lambda a: GrandCanonical(a, Atoms("Cu"), temperature=3000.0, chemical_potential=-0.2, number_of_exchange_particles=3, seed=seed, max_cycles=1), [("x", ExchangeMove(L.copy()))], rich(g, fix=True, extra=False), "gc:constraints_after_rejected_deletion"
         t = Atoms("Cu"); t.set_tags([7])
         yield "GrandCanonical(template with tags)", lambda a, t=t: GrandCanonical(a, t, temperature=3000.0, chemical_potential=-0.2, number_of_exchange_particles=3, seed=seed, max_cycles=1), [("x", ExchangeMove(L.copy()))], rich(g, fix=False, extra=False), "gc:arrays_created_by_extend_remain"
